@@ -113,7 +113,8 @@ Definition run (fields : list str) : list str :=
         match args with
         | [p; t; b] => [str_of_bool (str_eqb (rev (iter_pattern p b)) (canon_pattern p b));
                         str_of_bool (str_eqb (rev (iter_path t b)) (canon_path t b));
-                        str_of_bool (is_nil (canon_pattern p b))]
+                        str_of_bool (is_nil (canon_pattern p b));
+                        str_of_bool (in_domain p t b)]
         | _ => BAD
         end
       else if tag_is tag [105;116;101;114;112;97;116] then           (* iterpat *)
